@@ -132,6 +132,22 @@ func (p *vRawParam) length() int              { return len(p.b) }
 func vh_C13_L3_learned_only_from_wellformed_parameter() {
 	b := vHandshakeEndpoint(vPick(2) == 1, vPick(2) == 1)
 	b.initServer()
+	prior := vPick(2) == 1
+	if prior {
+		// an earlier INIT (a previous incarnation of the peer, or an INIT that was later
+		// superseded) did declare acceptance: what is learned must come from the latest INIT only
+		prev := &chunkInit{}
+		prev.initiateTag, prev.initialTSN = 1+nondetU32()%0xfffffffe, nondetU32()
+		prev.numOutboundStreams, prev.numInboundStreams = 10, 10
+		prev.advertisedReceiverWindowCredit = 1500
+		setSupportedExtensions(&prev.chunkInitCommon, false)
+		prev.params = append(prev.params, &paramZeroChecksumAcceptable{edmid: dtlsErrorDetectionMethod})
+		rawPrev, perr := (&packet{sourcePort: 5000, destinationPort: 5000, chunks: []chunk{prev}}).marshal(true)
+		vassert(perr == nil, "INIT marshals")
+		vInbound(b, rawPrev)
+		vassert(b.sendZeroChecksum, "acceptance declared by the earlier INIT")
+		_ = vWriterWake(b)
+	}
 	init := &chunkInit{}
 	init.initiateTag, init.initialTSN = 1+nondetU32()%0xfffffffe, nondetU32()
 	init.numOutboundStreams, init.numInboundStreams = 10, 10
@@ -149,7 +165,14 @@ func vh_C13_L3_learned_only_from_wellformed_parameter() {
 	vassert(err == nil, "INIT marshals")
 	vInbound(b, raw)
 	wellFormed := l == 8 && val[0] == 0 && val[1] == 0 && val[2] == 0 && val[3] == 1
-	vassert(b.sendZeroChecksum == wellFormed, "zero checksums are sent exactly when the peer declared them acceptable with the DTLS method")
+	if vDecode(raw) == nil {
+		// a truncated parameter can make the whole INIT undecodable: it is dropped without effect
+		vassert(l < 8, "a complete parameter never makes the INIT undecodable")
+		vassert(b.sendZeroChecksum == prior, "an undecodable INIT changes nothing")
+		vcover("end")
+		return
+	}
+	vassert(b.sendZeroChecksum == wellFormed, "zero checksums are sent exactly when the latest INIT declared them acceptable with the DTLS method")
 	for _, out := range vWriterWake(b) {
 		vassert(len(out) >= 12, "reply has a header")
 		field := binary.LittleEndian.Uint32(out[8:])
